@@ -64,6 +64,43 @@ template <class T> struct Expert {
     bool colequ() const { return equed[0] == 'C' || equed[0] == 'B'; }
 };
 
+// Known finding F-MC64 seen through ?gsisx with RowPerm = LargeDiag_MC64: on a matrix whose magnitudes tie, MC64 (job 5) can
+// return 0 with a "permutation" that is not a bijection (or that sits on an entry that is not stored); the driver folds it into
+// perm_r and factors a matrix with duplicated rows.  The class is recognised at its call site, not by its consequences: the
+// arrays the driver is about to hand to MC64 are passed to ?ldperm(5) directly, and the case belongs to the finding only if
+// (a) two stored entries have exactly equal magnitude or two 2x2 partial matchings have equal products, and (b) that direct
+// call returns 0 with a non-bijection.  Everything else - in particular any wrong result for a matrix on which MC64 itself
+// behaves - stays a violation.  Call before the driver (the driver scales and permutes its copy of the values in place).
+template <class T> inline bool mc64_breaks_on(const Expert<T> &e)
+{
+    typedef typename Tr<T>::R R;
+    if (!e.ilu || e.so.RowPerm != LargeDiag_MC64 || e.so.Fact == FACTORED || e.lwork == -1) return false;
+    const int n = e.n; const Comp<T> &S = e.S;
+    // (a) ties, in the magnitudes the library computes (working precision, |re|+|im|)
+    std::vector<std::vector<std::pair<int, long double>>> col(n);   // compressed view as handed over: outer index = "column"
+    std::vector<long double> mags;
+    for (int j = 0; j < n; ++j) for (int_t p = S.ptr[j]; p < S.ptr[j + 1]; ++p) {
+        typename Wide<T>::W w = widen<T>(S.val[p]); R a = Tr<T>::is_complex ? (R)((R)std::fabs((double)std::real(w)) + (R)std::fabs((double)std::imag(w))) : (R)std::fabs((double)std::real(w));
+        if (a != 0 && std::isfinite((double)a)) { col[j].push_back({(int)S.idx[p], std::log((long double)a)}); mags.push_back((long double)a); }
+    }
+    bool tie = false;
+    std::sort(mags.begin(), mags.end()); for (size_t k = 1; k < mags.size(); ++k) if (mags[k] == mags[k - 1]) tie = true;
+    for (int j = 0; j < n && !tie; ++j) for (int l = j + 1; l < n && !tie; ++l) {
+        std::vector<long double> ratio;   // log a(i,j) - log a(i,l) over the rows both columns hold: two equal ratios = a 2x2 product tie
+        for (auto &x : col[j]) for (auto &y : col[l]) if (x.first == y.first) ratio.push_back(x.second - y.second);
+        std::sort(ratio.begin(), ratio.end()); for (size_t k = 1; k < ratio.size(); ++k) if (ratio[k] - ratio[k - 1] <= 1e-12L) tie = true;
+    }
+    if (!tie) return false;
+    // (b) the direct call
+    std::vector<int_t> ptr = S.ptr, idx = S.idx; std::vector<T> val = S.val;
+    std::vector<int> perm(n + 1, -9); std::vector<R> u(n + 1, (R)0), v(n + 1, (R)0); int ret = -999;
+    if (guarded([&] { ret = Tr<T>::ldperm(5, n, (int_t)idx.size(), ptr.data(), idx.data(), val.data(), perm.data(), u.data(), v.data()); }) != 0) { vf_purge(); return false; }
+    if (ret != 0) return false;
+    if (!is_perm(perm.data(), n)) return true;
+    for (int i = 0; i < n; ++i) { bool stored = false; for (auto &x : col[perm[i]]) if (x.first == i) stored = true; if (!stored) return true; }
+    return false;
+}
+
 // Known finding F-ILU (an incomplete factorization can leave a column without a pivot row: perm_r is returned with -1
 // entries and L carries the row index -1).  Whatever ?gsisx does with such factors afterwards (pivot growth, condition
 // estimate, solve) reads out of bounds, so the class cannot be recognised after the call; it is recognised before it:
